@@ -88,6 +88,18 @@ CHECKS = {
   text="3 (thorough 5) lockup/vesting schedule fixtures (vested-but-locked and unlocked-but-unvested windows included) x every sequence <= 3 (thorough 4) over 50 operations: spend attempts on 7 paths (bank send, multi-send, EVM value transfer, transfer forwarded by a contract, fee payment, DAO funding, governance deposit) x {1, spendable, spendable+1, whole balance}; delegation by message / by authz exec / through the staking precompile x {1, max delegatable, max+1}; undelegation; block boundary with unbonding completion; 50% slash; clawback; block-time jumps to every schedule event +-1. After every successful non-delegation transaction balance >= max(original - unlockedVested - trackedDelegated, unvested) computed from the grant parameters; every successful delegation <= balance - unvested; tracked delegation bounded by the reference's own counter.",
   note="Zero gas prices (explicit fee operation instead). IBC transfer, ERC-20 conversion and liquidation are not in this alphabet.",
   design="DESIGN.md §3 C08"),
+ "C01": dict(
+  technique="bounded-exhaustive enumeration of block histories, each executed on a reference node and replayed on independently constructed replicas under enumerated nondeterminism policies (forced map-iteration seed, shifted wall clock, interleaved CheckTx/queries, construction order), all ABCI responses and app hashes compared",
+  engine="E2",
+  text="666 histories (quick): every template of an 18-template alphabet (bank, multi-denomination, EVM transfer / create / a call dirtying 5 slots and 4 fresh accounts in unsorted order / bank-precompile query from a contract, staking and distribution precompiles, staking messages, clawback vesting account with two denominations, DAO fund / ratio transfer, liquidation with token-pair registration, ERC20 conversion, failing transactions, double-sign evidence, downtime) alone, and every ordered pair in consecutive blocks and in one block; thorough adds pairs across a 30-day gap and all triples. The concrete blocks recorded on the reference node are replayed on 7 (thorough 23) fresh replicas whose Go map iteration is forced (runtime overlay) to a distinct start bucket/offset, with time.Now shifted by 400 days, CheckTx/gRPC queries interleaved between ABCI calls and a second app object constructed first. DeliverTx (code, data, gas, events, log), EndBlock (validator / consensus-param updates), BeginBlock events and Commit app hash must be identical; divergences are attributed by re-running with the sources separated.",
+  note="One forced random word for all maps at a time. Validator set of 2. ABCI level (no consensus engine).",
+  design="DESIGN.md §3 C01"),
+ "C20": dict(
+  technique="bounded-exhaustive enumeration of block histories x every block boundary as a restart point (crash-point enumeration), restarted replica compared call by call with a never-stopped reference node",
+  engine="E2",
+  text="183 histories (quick; thorough ~1000): every base template alone, a third (thorough: all) of ordered pairs, and governance flows that really pass and execute (EVM params: EnableCreate off and one precompile deactivated; fee-market params with a base-fee activation height; ERC20 params) alone and followed by every base template once in effect. For EVERY boundary k of every history a replica is stopped after Commit k and a new Haqq is constructed on the database (same DB / key-by-key copy / twice). Compared with the reference: Info() height and app hash, a battery of 27 gRPC queries after every commit, every later ABCI response and app hash.",
+  note="MemDB kept across the restart; torn writes inside a commit are not modelled. Software-upgrade plans cannot be exercised (the upgrade module panics by design for a scheduled plan whose handler is already in the binary).",
+  design="DESIGN.md §3 C20"),
 }
 
 PENDING = {}
